@@ -94,7 +94,7 @@ pub fn gen_files(t: &mut Tape, gates: &Gates) -> Vec<FileCase> {
             let k = 1 + t.below(v.len() - 1);
             if v[k].class == "valid" {
                 v[k].text = if t.flag() { format!("{}{}", v[k].text, copy) } else { format!("{}{}", copy, v[k].text) };
-                v[k].class = "semantic-fault";
+                v[k].class = "cross-file-fault";
             }
         }
     } else if v.len() <= 3 && t.ratio(1, 10) {
@@ -102,7 +102,7 @@ pub fn gen_files(t: &mut Tape, gates: &Gates) -> Vec<FileCase> {
             text: "CONFIGURATION xc\nVAR_GLOBAL CONSTANT\nxg : INT := 1;\nEND_VAR\nRESOURCE xr ON xcpu\nTASK xt(INTERVAL := T#10ms, PRIORITY := 1);\nPROGRAM xi WITH xt : xp;\nEND_RESOURCE\nEND_CONFIGURATION\n".into(),
             class: "valid",
         });
-        v.push(FileCase { text: "PROGRAM xp\nVAR_EXTERNAL\nxg : INT;\nEND_VAR\nEND_PROGRAM\n".into(), class: "semantic-fault" });
+        v.push(FileCase { text: "PROGRAM xp\nVAR_EXTERNAL\nxg : INT;\nEND_VAR\nEND_PROGRAM\n".into(), class: "cross-file-fault" });
     }
     v
 }
@@ -160,6 +160,23 @@ fn check_tape(tape: &[u8], gates: &Gates, codes: &[String], stats: &mut Stats, c
     gates.take_hits();
     let derived = crate::tape::derived(tape, 64);
     let mut choice = Tape::new(&derived);
+    // a sixth of the cases run every invocation with verbosity flags (the log goes to a file;
+    // nothing that is observed may change)
+    let verbosity: Vec<String> = match choice.below(12) {
+        0 => vec!["-v".into()],
+        1 => vec!["-vvvv".into()],
+        _ => vec![],
+    };
+    struct Restore(Vec<String>);
+    impl Drop for Restore {
+        fn drop(&mut self) {
+            crate::drive::set_global_options(std::mem::take(&mut self.0));
+        }
+    }
+    let _restore = Restore(crate::drive::set_global_options(verbosity.clone()));
+    if counting && !verbosity.is_empty() {
+        stats.class(&format!("options.{}", verbosity[0]));
+    }
     let dir = Scratch::new("c13");
     let sub = dir.path.join("set");
     std::fs::create_dir_all(&sub).unwrap();
@@ -316,8 +333,11 @@ fn check_tape(tape: &[u8], gates: &Gates, codes: &[String], stats: &mut Stats, c
                 kb.sort();
                 // (with several faulty files a rule reports the first one it meets: only sets with at
                 // most one faulty file are compared diagnostic by diagnostic)
+                // (and a diagnostic that relates two files names "the second" of them by the order
+                // of the file names, which the split arrangement changes: not compared either)
                 let faulty_files = files.iter().filter(|f| f.class != "valid").count();
-                if faulty_files <= 1 && kd != kb {
+                let cross_file = files.iter().any(|f| f.class == "cross-file-fault");
+                if faulty_files <= 1 && !cross_file && kd != kb {
                     return Err(fail("split", "diagnostics-differ", format!("split set reports {:?}; all files explicit: {:?}", kd, kb)));
                 }
             }
